@@ -2,6 +2,7 @@ import LanceModel.C27.CwLemmas
 import LanceModel.C27.OffLemmas
 import LanceModel.C27.TabLemmas
 import LanceModel.C27.StackLemmas
+import LanceModel.C27.GenStack
 /-!
 # C27 — repetition / definition levels encode nesting losslessly
 
@@ -21,28 +22,38 @@ contract of `RepDefBuilder` (lengths line up, a list under a null struct is null
 -/
 namespace LanceModel.C27
 
-/-! ## Part 1: the full statement -/
+/-! ## Part 1: the round trip for whole stacks -/
 
-/-- The round trip for an arbitrary layer stack (any depth, any number of rows, lists and structs in any order):
-    unravelling the serialised levels layer by layer, innermost first, returns the logical normal form. -/
-def unravel_serialize_full : Prop :=
-  ∀ (ls : List Layer), noFsl ls = true → aligned ls = true → 0 < stackRows ls →
-    (∃ v n, ls.getLast? = some (.validity v n)) →
-    ∀ s, serialize [ls] = some s →
-      unravelAll [Unr.new s.rep s.dl s.meaning (leafItems ls)] (kindsOf ls) = some (nf ls).reverse
+/-- **`unravel_serialize`**: for EVERY stack of validity layers (structs, the leaf) and list layers — any depth, any
+    order, any number of rows, every layer with or without a validity buffer, null lists, empty lists, lists under
+    null structs, structs between lists — that satisfies the caller contract (`aligned`: the lengths line up and a
+    list under a null struct is null or empty; `layersOk`: list layers as `add_offsets` records them, see
+    `add_offsets_well_formed`): if `RepDefBuilder::serialize` returns definition levels, unravelling every layer
+    (innermost first, as the decoders do) returns exactly the logical normal form `nf` — the offsets of the
+    normalised lengths, and every validity buffer with the slots under a null ancestor reported null.
+    Proved by induction over the layer stack (`stack_main`). -/
+theorem unravel_serialize (ls : List Layer) (k : Nat) (hnf : noFsl ls = true) (hok : layersOk ls = true)
+    (hal : aligned ls = true) (hdef : 0 < numDefs ls) (hT : numDefs ls ≤ T)
+    (s : Ser) (hs : serializeLayers ls = some s) (hlev : s.dl ≠ none) :
+    unravelAll [Unr.new s.rep s.dl s.meaning k] (kindsOf ls) = some (nf ls).reverse := by
+  by_cases hl : 0 < numLists ls
+  · exact list_stack_roundtrip ls k hnf hok hal hdef hl hT s hs hlev
+  · exact validity_stack_roundtrip_lev ls k (onlyValidity_of_noLists ls hnf (by omega)) hal hdef hT s hs hlev
 
-/-! ## Part 1b: the full statement for stacks without lists -/
-
-/-- **`unravel_serialize` for nested structs around a leaf** (any depth, any number of rows, every layer with or
-    without a validity buffer): unravelling the serialised definition levels of a stack of validity layers, innermost
-    layer first, returns the logical normal form.  This is `unravel_serialize_full` restricted to stacks without list
-    layers (`_partial`: the induction over stacks that contain list layers is not assembled; its two induction
-    steps are Part 2). -/
-theorem unravel_serialize_partial (ls : List Layer) (k : Nat) (honly : onlyValidity ls = true)
+/-- for stacks without lists (nested structs around a leaf) the side condition "serialisation returned def levels"
+    is proved as well: it holds as soon as there is at least one row -/
+theorem unravel_serialize_structs (ls : List Layer) (k : Nat) (honly : onlyValidity ls = true)
     (hal : aligned ls = true) (hrows : 0 < stackRows ls) (hdef : 0 < numDefs ls) (hT : numDefs ls ≤ T)
     (s : Ser) (hs : serializeLayers ls = some s) :
     unravelAll [Unr.new s.rep s.dl s.meaning k] (kindsOf ls) = some (nf ls).reverse :=
   validity_stack_roundtrip ls k honly hal hrows hdef hT s hs
+
+/-- the list layer `RepDefBuilder::add_offsets` records satisfies `layersOk`: null lists have length 0 (garbage
+    dropped) and `has_empty_lists` is set whenever a valid list is empty -/
+theorem add_offsets_well_formed (lens : List Nat) (v : Option (List Bool))
+    (h : ∀ b, v = some b → b.length = lens.length) :
+    lensOk (hasEmptyLists lens v) (normLens lens v) v = true :=
+  addOffsets_lensOk lens v h
 
 set_option maxRecDepth 100000 in
 /-- struct (null at row 1) > struct (no buffer) > item (null at rows 0 and 3): the hypotheses hold and the normal
@@ -55,6 +66,19 @@ example :
         some (some [1, 2, 0, 1], [.nullableItem, .allValidItem, .nullableItem]) ∧
       nf ls = [.v (some [true, false, true, true]), .v none, .v (some [false, false, true, false])] := by decide
 
+set_option maxRecDepth 100000 in
+/-- `List<Struct<List<Int>>>` with a null struct over a pushed-down (null) list, an empty outer list, garbage behind a
+    null list: the hypotheses of `unravel_serialize` hold -/
+example :
+    let b1 := (Builder.addOffsets {} [2, 0, 1] none).get!.1
+    let b2 := (b1.addValidityBitmap [true, false, true]).get!
+    let b3 := (b2.addOffsets [1, 3, 2] (some [true, false, true])).get!.1
+    let ls := (b3.addValidityBitmap [true, false, true]).get!.layers
+    noFsl ls = true ∧ layersOk ls = true ∧ aligned ls = true ∧ 0 < numDefs ls ∧ numDefs ls ≤ T ∧
+      ((serializeLayers ls).map (fun s => decide (s.dl ≠ none))) = some true ∧
+      nf ls = [.o [0, 2, 2, 3] none, .v (some [true, false, true]), .o [0, 1, 1, 3] (some [true, false, true]),
+        .v (some [true, false, true])] := by decide
+
 /-- zero rows are outside the contract (open finding `zero_rows`): the early return of `build` hands out `def_meaning`
     un-reversed and no levels, and unravelling panics -/
 theorem unravel_serialize_zero_rows_counterexample :
@@ -64,10 +88,10 @@ theorem unravel_serialize_zero_rows_counterexample :
   ⟨[.validity (some []) 0, .validity none 0], by decide, by decide, by decide,
     ⟨_, rfl, by decide⟩⟩
 
-/-! ## Part 2: one layer in an arbitrary context (the induction steps of `unravel_serialize_full`)
+/-! ## Part 2: one layer in an arbitrary context (the induction steps of `unravel_serialize`)
 
 A stack is serialised outermost layer first and unravelled innermost layer first.  The two theorems below are the
-step for one layer, stated for ANY entry list the layers above may have produced (`EInv` / `EInvL`: special entries
+induction steps of `unravel_serialize` for one layer, stated for ANY entry list the layers above may have produced (`EInv` / `EInvL`: special entries
 of outer lists, live entries, entries masked by the `K` nullable structs directly above) and ANY levels the layers
 below may have written on top of the layer's own output (`VD` / `VR`: a live entry may show any level of the `D`
 levels below; rep levels have been decremented once per list below).  -/
